@@ -141,7 +141,35 @@ impl Leg for Seqs {
     }
 }
 
+/// pykmertools to_acgt (both iterator classes) against the model's decoding
+pub struct PyAcgt;
+impl Leg for PyAcgt {
+    type Case = CodeCase;
+    const NAME: &'static str = "python-to-acgt";
+    fn strategy(tier: Tier) -> BoxedStrategy<CodeCase> {
+        Codes::strategy(tier)
+    }
+    fn check(c: &CodeCase) -> Verdict {
+        let mut v = Verdict::new();
+        v.class("python");
+        v.nontrivial = c.x != 0 && c.x != model::pow4(c.k) - 1;
+        let want = String::from_utf8(model::decode(c.x, c.k)).unwrap();
+        match crate::pyworker::ask(&serde_json::json!({"op": "acgt", "k": c.k, "x": c.x})) {
+            Err(e) => v.fail("python-worker", e),
+            Ok(r) => {
+                let got: Vec<String> = r["ok"].as_array().map(|a| a.iter().map(|x| x.as_str().unwrap_or("").to_string()).collect()).unwrap_or_default();
+                if got.len() != 2 || got[0] != want || got[1] != want {
+                    v.fail("python-to-acgt", format!("to_acgt({}) with k={}: Python gives {:?}, the code decodes to {:?}", c.x, c.k, got, want));
+                }
+            }
+        }
+        v
+    }
+}
+
 pub fn run(ctx: &mut Ctx) {
+    let n = ctx.share(ctx.tier.pick(30_000, 400_000));
+    ctx.run_leg::<PyAcgt>(n, false, 1000);
     // (a) exhaustive codes
     let kmax = ctx.tier.pick(9, 12);
     let (sh, n) = (ctx.shard as u64, ctx.nshards as u64);
@@ -160,6 +188,7 @@ pub fn replay(leg: &str, case: &serde_json::Value) -> Option<Result<Verdict, Str
     match leg {
         "codes-exhaustive" | "codes-sampled" => Some(crate::engine::replay_leg::<Codes>(case)),
         "seq-symmetry" => Some(crate::engine::replay_leg::<Seqs>(case)),
+        "python-to-acgt" => Some(crate::engine::replay_leg::<PyAcgt>(case)),
         _ => None,
     }
 }
